@@ -168,53 +168,38 @@ Proof.
   destruct o; simpl in *; try exact Hd. apply diamond_meta.
 Qed.
 
+Lemma gen_member_cls : forall o g, member_b o (VGen g) = true -> sub_art (class_of o) (gen_cls g) = true.
+Proof.
+  intros o g Hm. destruct g; simpl in *.
+  - destruct o; try discriminate. reflexivity.
+  - destruct o; try discriminate. reflexivity.
+  - apply andb_true_iff in Hm. tauto.
+  - exact Hm.
+Qed.
+
 Lemma deliteral_member : forall o b, member_b o b = true ->
   match deliteral b with
   | VAny => True
   | VTyped c => sub_art (class_of o) c = true
   | VSub c => exists k, o = OClass k /\ sub_art k c = true
-  | VGen g => sub_art (class_of o) (gen_cls g) = true
   | _ => False
   end.
 Proof.
-  intros o b Hm. destruct b as [|l|c|c|ms|g]; simpl in *.
+  intros o b Hm. destruct b as [|l|c|c|ms|g]; cbn [deliteral].
   - exact I.
-  - apply obj_eqb_eq in Hm. subst. apply sub_art_refl.
+  - simpl in Hm. apply obj_eqb_eq in Hm. subst. apply sub_art_refl.
   - exact Hm.
-  - destruct o; try discriminate. eexists; split; [reflexivity|exact Hm].
-  - destruct o; try discriminate. reflexivity.
-  - destruct g; simpl in *.
-    + destruct o; try discriminate. reflexivity.
-    + destruct o; try discriminate. reflexivity.
-    + apply andb_true_iff in Hm. tauto.
-    + exact Hm.
-Qed.
-
-Lemma deliteral_pat : forall p g, pat_ok p = true -> deliteral p = VGen g -> g = GMapPat.
-Proof.
-  intros p g Hok E. destruct p as [|l|c|c|ms|g0]; simpl in E; try discriminate.
-  destruct g0; simpl in *; try discriminate; inversion E; reflexivity.
-Qed.
-
-Lemma meta_not_gen : forall k g, sub_art (meta k) (gen_cls g) = false.
-Proof. intros k g; destruct k, g; reflexivity. Qed.
-
-Lemma gen_left_typed : forall g c, g <> GSeqPat ->
-  assignable (VGen g) (VTyped c) = sub_art c (gen_cls g).
-Proof. intros g c H. destruct g; try reflexivity. exfalso. apply H. reflexivity. Qed.
-
-Lemma deliteral_not_seqpat : forall b g, deliteral b = VGen g -> g <> GSeqPat.
-Proof.
-  intros b g E. destruct b as [|l|c|c|ms|g0]; simpl in E; try discriminate.
-  destruct g0; simpl in E; try discriminate; inversion E; discriminate.
+  - simpl in Hm. destruct o; try discriminate. eexists; split; [reflexivity|exact Hm].
+  - simpl in Hm. destruct o; try discriminate. reflexivity.
+  - apply gen_member_cls. exact Hm.
 Qed.
 
 Lemma overlap_lemma : forall o p b,
   member_b o p = true -> member_b o b = true -> multiple_inheritance o = false ->
-  enum_class_object o = false -> pat_ok p = true ->
+  enum_class_object o = false ->
   assignable (deliteral p) (deliteral b) || assignable (deliteral b) (deliteral p) = true.
 Proof.
-  intros o p b Hp Hb Hd He Hok.
+  intros o p b Hp Hb Hd He.
   pose proof (deliteral_member o p Hp) as Dp. pose proof (deliteral_member o b Hb) as Db.
   destruct (deliteral p) as [| |c1|c1| |g1] eqn:Ep; try contradiction;
   destruct (deliteral b) as [| |c2|c2| |g2] eqn:Eb; try contradiction;
@@ -224,9 +209,6 @@ Proof.
   - (* typed c1, sub c2 *)
     simpl. destruct Db as [k [-> Hk]]. simpl in Dp, He. unfold meta in Dp. rewrite He in Dp.
     unfold isinst. simpl. apply (type_vs_sub_overlap c1 c2 Dp).
-  - (* typed c1, gen g2 *)
-    rewrite (gen_left_typed g2 c1 (deliteral_not_seqpat _ _ Eb)). cbn [assignable].
-    destruct (comparable_of o c1 (gen_cls g2) Hd Dp Db) as [H|H]; rewrite H; [apply orb_true_r|reflexivity].
   - (* sub c1, typed c2 *)
     simpl. destruct Dp as [k [-> Hk]]. simpl in Db, He. unfold meta in Db. rewrite He in Db.
     unfold isinst. simpl. rewrite orb_comm. apply (type_vs_sub_overlap c2 c1 Db).
@@ -234,39 +216,25 @@ Proof.
     simpl. destruct Dp as [k [-> Hk1]]. destruct Db as [k' [E Hk2]]. inversion E; subst k'.
     simpl in Hd.
     destruct (no_diamond_comparable k c1 c2 Hd Hk1 Hk2) as [H|H]; rewrite H; [apply orb_true_r|reflexivity].
-  - (* sub, gen *)
-    destruct Dp as [k [-> Hk]]. simpl in Db. rewrite meta_not_gen in Db. discriminate.
-  - (* gen g1, typed c2 *)
-    rewrite (gen_left_typed g1 c2 (deliteral_not_seqpat _ _ Ep)). cbn [assignable].
-    destruct (comparable_of o (gen_cls g1) c2 Hd Dp Db) as [H|H]; rewrite H; [apply orb_true_r|reflexivity].
-  - (* gen, sub *)
-    destruct Db as [k [-> Hk]]. simpl in Dp. rewrite meta_not_gen in Dp. discriminate.
-  - (* gen, gen *)
-    rewrite (deliteral_pat p g1 Hok Ep) in *. pose proof (deliteral_not_seqpat _ _ Eb) as Hn.
-    simpl in Dp. destruct g2; simpl in *; try reflexivity.
-    + destruct (comparable_of o CMapping CList Hd Dp Db) as [H|H]; vm_compute in H; discriminate.
-    + exfalso. apply Hn. reflexivity.
 Qed.
 
 Lemma overlapping_of_member : forall o pat s,
   existsb (member_b o) pat = true -> member_s o s = true -> multiple_inheritance o = false ->
-  enum_class_object o = false -> forallb pat_ok pat = true ->
+  enum_class_object o = false ->
   overlapping pat s = true.
 Proof.
-  intros o pat s Hp Hm Hd He Hok. apply existsb_exists in Hp. destruct Hp as [p [Hin Hp]].
+  intros o pat s Hp Hm Hd He. apply existsb_exists in Hp. destruct Hp as [p [Hin Hp]].
   unfold overlapping. apply existsb_exists. exists p. split; [exact Hin|].
-  rewrite forallb_forall in Hok.
-  apply (overlap_lemma o p (sbase s) Hp (member_s_base o s Hm) Hd He (Hok p Hin)).
+  apply (overlap_lemma o p (sbase s) Hp (member_s_base o s Hm) Hd He).
 Qed.
 
 Lemma isassign_pos_sound : forall pat po,
-  forallb pat_ok pat = true ->
   ksound (KPred (PIsAssignable pat po) true)
          (fun o => existsb (member_b o) pat = true /\ multiple_inheritance o = false
                    /\ enum_class_object o = false).
 Proof.
-  intros pat po Hok s o Hm [Hp [Hd He]]. simpl. unfold pred_isassignable.
-  rewrite (overlapping_of_member o pat s Hp Hm Hd He Hok). simpl.
+  intros pat po s o Hm [Hp [Hd He]]. simpl. unfold pred_isassignable.
+  rewrite (overlapping_of_member o pat s Hp Hm Hd He). simpl.
   destruct (pat_assignable pat s).
   - destruct (univ_assignable (sbase s) pat).
     + rewrite member_map_plain. exact Hp.
@@ -286,14 +254,31 @@ Proof.
   intros K c H1 H2 H3 H4. rewrite (sub_art_trans _ _ _ H1 H2), H4. reflexivity.
 Qed.
 
+Lemma list_class_only : forall o, wf_obj o = true -> sub_art (class_of o) CList = true -> is_collection o = true.
+Proof.
+  intros o Hw H. destruct o; simpl in *; try (vm_compute in H; discriminate); try reflexivity.
+  - destruct c; vm_compute in Hw, H; discriminate.
+  - destruct c; try (vm_compute in H; discriminate).
+  - unfold meta in H. destruct (is_enum c); vm_compute in H; discriminate.
+Qed.
+
+Lemma dict_class_only : forall o, wf_obj o = true -> sub_art (class_of o) CDict = true -> is_collection o = true.
+Proof.
+  intros o Hw H. destruct o; simpl in *; try (vm_compute in H; discriminate); try reflexivity.
+  - destruct c; vm_compute in Hw, H; discriminate.
+  - destruct c; try (vm_compute in H; discriminate).
+  - unfold meta in H. destruct (is_enum c); vm_compute in H; discriminate.
+Qed.
+
 Lemma assignable_sound : forall p b o,
   assignable p b = true -> member_b o b = true ->
-  is_vtuple p = false -> pat_ok p = true ->
+  is_vtuple p = false ->
   univ_assignable b [p] = false ->
   wf_obj o = true -> enum_class_object o = false -> (p = VGen GSeqPat -> is_str o = false) ->
+  (is_generic_pat p = true -> is_collection o = false) ->
   member_b o p = true.
 Proof.
-  intros p b o Ha Hm Hp Hok Hu Hw He Hstr'.
+  intros p b o Ha Hm Hp Hu Hw He Hstr' Hgen.
   pose proof (deliteral_member o b Hm) as Db.
   destruct p as [|l|c|c|ms|g]; simpl in Hp; try discriminate.
   - reflexivity.
@@ -304,10 +289,7 @@ Proof.
     + apply (sub_art_trans _ c' _ Hm Ha).
     + destruct o; try discriminate. simpl. apply (sub_art_trans _ (meta c') _ (meta_mono _ _ Hm) Ha).
     + destruct o; try discriminate. exact Ha.
-    + assert (Hk : sub_art (class_of o) (gen_cls g') = true).
-      { destruct g'; simpl in *; try exact Db; try (apply andb_true_iff in Hm; tauto);
-          destruct o; try discriminate; reflexivity. }
-      apply (sub_art_trans _ _ _ Hk Ha).
+    + apply (sub_art_trans _ _ _ (gen_member_cls o g' Hm) Ha).
   - destruct b as [|l'|c'|c'|ms'|g']; simpl in *; try discriminate.
     + apply obj_eqb_eq in Hm. subst l'. destruct o; try discriminate. exact Ha.
     + apply orb_true_iff in Ha. destruct Ha as [Ha|Ha].
@@ -316,7 +298,20 @@ Proof.
         destruct c'; try (vm_compute in Hs; discriminate).
         rewrite (class_of_enummeta o Hw Hm) in He. discriminate He.
     + destruct o; try discriminate. apply (sub_art_trans _ c' _ Hm Ha).
-  - destruct g; simpl in Hok; try discriminate.
+  - destruct g.
+    + (* list[t]: only a collection can be in a value assignable to it *)
+      exfalso. assert (Hc : is_collection o = true).
+      { destruct b as [|l'|c'|c'|ms'|g']; simpl in Ha, Hm, Hu; try discriminate.
+        - apply obj_eqb_eq in Hm. subst l'. destruct o; try discriminate. reflexivity.
+        - apply (list_class_only o Hw). apply (sub_art_trans _ c' _ Hm Ha).
+        - destruct g'; try discriminate. simpl in Hm. destruct o; try discriminate. reflexivity. }
+      rewrite (Hgen eq_refl) in Hc. discriminate.
+    + exfalso. assert (Hc : is_collection o = true).
+      { destruct b as [|l'|c'|c'|ms'|g']; simpl in Ha, Hm, Hu; try discriminate.
+        - apply obj_eqb_eq in Hm. subst l'. destruct o; try discriminate. reflexivity.
+        - apply (dict_class_only o Hw). apply (sub_art_trans _ c' _ Hm Ha).
+        - destruct g'; try discriminate. simpl in Hm. destruct o; try discriminate. reflexivity. }
+      rewrite (Hgen eq_refl) in Hc. discriminate.
     + (* sequence pattern *)
       pose proof (Hstr' eq_refl) as Hstr. unfold is_str in Hstr.
       cbn [member_b]. destruct b as [|l'|c'|c'|ms'|g']; simpl in Ha, Hm, Hu; try discriminate.
@@ -324,18 +319,12 @@ Proof.
       * apply andb_true_iff in Ha. destruct Ha as [Ha1 Ha2]. apply negb_true_iff in Ha2.
         apply (seq_not_str _ c' Hm Ha1 Ha2 Hstr).
       * destruct o; try discriminate. reflexivity.
-      * assert (Hk : sub_art (class_of o) (gen_cls g') = true).
-        { destruct g'; simpl in *; try exact Db; try (apply andb_true_iff in Hm; tauto);
-            destruct o; try discriminate; reflexivity. }
-        rewrite (sub_art_trans _ _ _ Hk Ha), Hstr. reflexivity.
+      * rewrite (sub_art_trans _ _ _ (gen_member_cls o g' Hm) Ha), Hstr. reflexivity.
     + (* mapping pattern *)
       cbn [member_b]. destruct b as [|l'|c'|c'|ms'|g']; simpl in Ha, Hm, Hu; try discriminate.
       * apply obj_eqb_eq in Hm. subst l'. exact Ha.
       * apply (sub_art_trans _ c' _ Hm Ha).
-      * assert (Hk : sub_art (class_of o) (gen_cls g') = true).
-        { destruct g'; simpl in *; try exact Db; try (apply andb_true_iff in Hm; tauto);
-            destruct o; try discriminate; reflexivity. }
-        apply (sub_art_trans _ _ _ Hk Ha).
+      * apply (sub_art_trans _ _ _ (gen_member_cls o g' Hm) Ha).
 Qed.
 
 Lemma univ_mono : forall b p pat, In p pat -> univ_assignable b pat = false -> univ_assignable b [p] = false.
@@ -348,21 +337,22 @@ Proof.
 Qed.
 
 Lemma isassign_neg_sound : forall pat po,
-  forallb (fun p => negb (is_vtuple p)) pat = true -> forallb pat_ok pat = true ->
+  forallb (fun p => negb (is_vtuple p)) pat = true ->
   ksound (KPred (PIsAssignable pat po) false)
          (fun o => existsb (member_b o) pat = false /\ wf_obj o = true /\ enum_class_object o = false
-                   /\ (po = false -> In (VGen GSeqPat) pat -> is_str o = false)).
+                   /\ (po = false -> In (VGen GSeqPat) pat -> is_str o = false)
+                   /\ (existsb is_generic_pat pat = true -> is_collection o = false)).
 Proof.
-  intros pat po Hpat Hok s o Hm [Hp [Hw [He Hstr]]]. simpl. unfold pred_isassignable.
+  intros pat po Hpat s o Hm [Hp [Hw [He [Hstr Hgen]]]]. simpl. unfold pred_isassignable.
   destruct (negb po && pat_assignable pat s && negb (univ_assignable (sbase s) pat)) eqn:E.
   - exfalso. apply andb_true_iff in E. destruct E as [E Hu]. apply andb_true_iff in E. destruct E as [Hpo Ha].
     apply negb_true_iff in Hu. apply negb_true_iff in Hpo.
     unfold pat_assignable in Ha. apply existsb_exists in Ha. destruct Ha as [p [Hin Ha]].
     rewrite forallb_forall in Hpat. pose proof (Hpat p Hin) as Hvt. apply negb_true_iff in Hvt.
-    rewrite forallb_forall in Hok. pose proof (Hok p Hin) as Hpok.
     assert (Hmem : member_b o p = true).
-    { apply (assignable_sound p (sbase s) o Ha (member_s_base o s Hm) Hvt Hpok (univ_mono _ _ _ Hin Hu) Hw He).
-      intros ->. apply Hstr; [exact Hpo|exact Hin]. }
+    { apply (assignable_sound p (sbase s) o Ha (member_s_base o s Hm) Hvt (univ_mono _ _ _ Hin Hu) Hw He).
+      - intros ->. apply Hstr; [exact Hpo|exact Hin].
+      - intros Hg. apply Hgen. apply existsb_exists. exists p. split; assumption. }
     assert (existsb (member_b o) pat = true) by (apply existsb_exists; exists p; split; assumption).
     rewrite H in Hp. discriminate.
   - rewrite member_single. exact Hm.
@@ -729,7 +719,7 @@ Lemma diamond_of : forall o, multiple_inheritance o = false -> diamond_cls (clas
 Proof. intros o H. destruct o; simpl in *; try exact H. apply diamond_meta. Qed.
 
 Definition assert_ok (o : obj) : Prop :=
-  wf_obj o = true /\ multiple_inheritance o = false /\ numeric_like o = false /\ enum_class_object o = false.
+  wf_obj o = true /\ multiple_inheritance o = false /\ enum_class_object o = false.
 
 Lemma numeric_like_cls : forall o, numeric_like o = false ->
   (forall k, o <> OClass k) -> numeric_cls (class_of o) = false.
@@ -738,40 +728,54 @@ Proof. intros o H Hn. destruct o; simpl in *; try exact H. exfalso. apply (Hn c)
 Lemma class_object_not_numeric : forall k, numeric_cls (meta k) = false.
 Proof. destruct k; reflexivity. Qed.
 
+Lemma sub_or_promotable : forall c t, sub c t || promotable c t = sub_art c t.
+Proof. intros c t; destruct c, t; reflexivity. Qed.
+
+(* an instance of c that belongs to the declared class t (possibly by promotion): t is a subclass
+   of c, or c is a subclass of / promoted to t *)
+Lemma pos_comparable : forall K t c,
+  diamond_cls K = false -> sub_art K t = true -> sub K c = true -> sub t c || sub_art c t = true.
+Proof.
+  assert (H : forallb (fun K => forallb (fun t => forallb (fun c =>
+              implb (negb (diamond_cls K) && sub_art K t && sub K c) (sub t c || sub_art c t)) all_cls) all_cls) all_cls = true)
+    by (vm_compute; reflexivity).
+  intros K t c Hd H1 H2.
+  pose proof (forallb_all_cls _ (forallb_all_cls _ (forallb_all_cls _ H K) t) c) as Hi. simpl in Hi.
+  rewrite Hd, H1, H2 in Hi. exact Hi.
+Qed.
+
+Lemma isinstance_pos_typed : forall o t c s,
+  sub_art (class_of o) t = true -> isinst o c = true -> multiple_inheritance o = false ->
+  member_s o s = true ->
+  member o (if sub t c then [s] else if sub c t || promotable c t then [plain (VTyped c)] else []) = true.
+Proof.
+  intros o t c s Hk Hi Hd Hm.
+  pose proof (pos_comparable _ _ _ (diamond_of o Hd) Hk Hi) as Hc.
+  destruct (sub t c); [rewrite member_single; exact Hm|]. simpl in Hc.
+  rewrite sub_or_promotable, Hc. rewrite member_single, member_s_plain. simpl. apply sub_sub_art. exact Hi.
+Qed.
+
 Lemma isinstance_pos_sound : forall c,
   ksound (KIsInstance c true) (fun o => isinst o c = true /\ assert_ok o).
 Proof.
-  intros c s o Hm [Hi [Hw [Hd [Hn He]]]]. cbn [apply_constr]. unfold apply_isinstance.
+  intros c s o Hm [Hi [Hw [Hd He]]]. cbn [apply_constr]. unfold apply_isinstance.
   pose proof (member_s_base o s Hm) as Hb.
-  assert (HnK : numeric_cls (class_of o) = false).
-  { destruct o; simpl in *; try exact Hn. apply class_object_not_numeric. }
   destruct (sbase s) as [|l|t|t|ms|g] eqn:Eb.
   - rewrite member_single, member_s_plain. simpl. apply sub_sub_art. exact Hi.
   - simpl in Hb. apply obj_eqb_eq in Hb. subst l. rewrite Hi. cbn [Bool.eqb]. rewrite member_single. exact Hm.
-  - simpl in Hb. pose proof (non_numeric_nominal _ _ HnK Hb) as Hs.
-    pose proof (nominal_comparable _ _ _ (diamond_of o Hd) Hs Hi) as Hc. cbn [nominal_cls].
-    destruct (sub t c); [rewrite member_single; exact Hm|]. simpl in Hc. rewrite Hc.
-    rewrite member_single, member_s_plain. simpl. apply sub_sub_art. exact Hi.
+  - simpl in Hb. cbn [nominal_cls]. apply (isinstance_pos_typed o t c s Hb Hi Hd Hm).
   - simpl in Hb. destruct o; try discriminate. simpl in He. unfold isinst in *. simpl in *.
     unfold meta in Hi at 1. rewrite He in Hi. rewrite (meta_sub_type t c Hi). cbn [Bool.eqb].
     rewrite member_single. exact Hm.
   - assert (Hk : sub_art (class_of o) CTuple = true) by (simpl in Hb; destruct o; try discriminate; reflexivity).
-    pose proof (non_numeric_nominal _ _ HnK Hk) as Hs.
-    pose proof (nominal_comparable _ _ _ (diamond_of o Hd) Hs Hi) as Hc. cbn [nominal_cls].
-    destruct (sub CTuple c); [rewrite member_single; exact Hm|]. simpl in Hc. rewrite Hc.
-    rewrite member_single, member_s_plain. simpl. apply sub_sub_art. exact Hi.
-  - assert (Hk : sub_art (class_of o) (gen_cls g) = true).
-    { apply (member_nominal_cls o (VGen g) Hb); intros; discriminate. }
-    pose proof (non_numeric_nominal _ _ HnK Hk) as Hs.
-    pose proof (nominal_comparable _ _ _ (diamond_of o Hd) Hs Hi) as Hc. cbn [nominal_cls].
-    destruct (sub (gen_cls g) c); [rewrite member_single; exact Hm|]. simpl in Hc. rewrite Hc.
-    rewrite member_single, member_s_plain. simpl. apply sub_sub_art. exact Hi.
+    cbn [nominal_cls]. apply (isinstance_pos_typed o CTuple c s Hk Hi Hd Hm).
+  - cbn [nominal_cls]. apply (isinstance_pos_typed o (gen_cls g) c s (gen_member_cls o g Hb) Hi Hd Hm).
 Qed.
 
 Lemma isinstance_neg_sound : forall c,
-  ksound (KIsInstance c false) (fun o => isinst o c = false /\ assert_ok o).
+  ksound (KIsInstance c false) (fun o => isinst o c = false /\ numeric_like o = false).
 Proof.
-  intros c s o Hm [Hi [Hw [Hd [Hn He]]]]. cbn [apply_constr]. unfold apply_isinstance.
+  intros c s o Hm [Hi Hn]. cbn [apply_constr]. unfold apply_isinstance.
   pose proof (member_s_base o s Hm) as Hb.
   assert (HnK : numeric_cls (class_of o) = false).
   { destruct o; simpl in *; try exact Hn. apply class_object_not_numeric. }
@@ -787,30 +791,24 @@ Proof.
     pose proof (sub_trans _ _ _ (meta_mono_sub _ _ Hb) E). congruence.
   - assert (Hk : sub_art (class_of o) CTuple = true) by (simpl in Hb; destruct o; try discriminate; reflexivity).
     cbn [nominal_cls]. rewrite (Hgen _ Hk). rewrite member_single. exact Hm.
-  - assert (Hk : sub_art (class_of o) (gen_cls g) = true).
-    { apply (member_nominal_cls o (VGen g) Hb); intros; discriminate. }
-    cbn [nominal_cls]. rewrite (Hgen _ Hk). rewrite member_single. exact Hm.
+  - cbn [nominal_cls]. rewrite (Hgen _ (gen_member_cls o g Hb)). rewrite member_single. exact Hm.
 Qed.
 
 Lemma isvalue_pos_sound : forall l,
-  ksound (KIsValue l true) (fun o => o = l /\ assert_ok o).
+  ksound (KIsValue l true) (fun o => o = l).
 Proof.
-  intros l s o Hm [-> [Hw [Hd [Hn He]]]]. cbn [apply_constr]. unfold apply_isvalue.
+  intros l s o Hm ->. cbn [apply_constr]. unfold apply_isvalue.
   pose proof (member_s_base l s Hm) as Hb.
   assert (Hk : member l [plain (VKnown l)] = true).
   { rewrite member_single, member_s_plain. simpl. apply obj_eqb_refl. }
-  assert (HnK : numeric_cls (class_of l) = false).
-  { destruct l; simpl in *; try exact Hn. apply class_object_not_numeric. }
   destruct (sbase s) as [|l'|t|t|ms|g] eqn:Eb.
   - exact Hk.
   - simpl in Hb. apply obj_eqb_eq in Hb. subst l'. rewrite obj_eqb_refl. rewrite member_single. exact Hm.
-  - simpl in Hb. cbn [nominal_cls]. unfold isinst. rewrite (non_numeric_nominal _ _ HnK Hb). exact Hk.
-  - simpl in Hb. destruct l; try discriminate. simpl in Hn. rewrite (non_numeric_nominal _ _ Hn Hb). exact Hk.
+  - simpl in Hb. cbn [nominal_cls]. unfold isinst. rewrite sub_or_promotable, Hb. exact Hk.
+  - simpl in Hb. destruct l; try discriminate. rewrite sub_or_promotable, Hb. exact Hk.
   - assert (Hc : sub_art (class_of l) CTuple = true) by (simpl in Hb; destruct l; try discriminate; reflexivity).
-    cbn [nominal_cls]. unfold isinst. rewrite (non_numeric_nominal _ _ HnK Hc). exact Hk.
-  - assert (Hc : sub_art (class_of l) (gen_cls g) = true).
-    { apply (member_nominal_cls l (VGen g) Hb); intros; discriminate. }
-    cbn [nominal_cls]. unfold isinst. rewrite (non_numeric_nominal _ _ HnK Hc). exact Hk.
+    cbn [nominal_cls]. unfold isinst. rewrite sub_or_promotable, Hc. exact Hk.
+  - cbn [nominal_cls]. unfold isinst. rewrite sub_or_promotable, (gen_member_cls l g Hb). exact Hk.
 Qed.
 
 Lemma isvalue_neg_sound : forall l,
